@@ -114,10 +114,26 @@ def cases(E):
         cs.append(Case("vf.contracts.c_labels.restore_scope_export_contract", f"{kind},exports={ex}", c02.shape_export(kind, ex), target=[Y + "Resolver.restore_scope"]))
     for kind in ("compound", "scope"):
         cs.append(Case("vf.contracts.c_codegen.balanced_scope_contract", kind, shape_balanced(kind), target=[G + "generate_compound", G + "generate_scope"]))
+    cs.append(Case("vf.contracts.c_codegen.generate_assign_frame_contract", "`a := expr` in a block whose enclosing scope binds `a`", shape_assign_frame, target=[G + "generate_assign", Y + "Scope.add_symbol"]))
+    # a macro argument that mentions a name is resolved in the scope of the CALL, also after sibling scopes that define the same name privately
+    from vf.props import C09 as c09
+    cs += [c for c in c09.cases(E) if c.harness.endswith("deferred_application_contract")]
     from vf.props import expansion
     cs += expansion.cases(E)
     cs.append(Case(H + "scope_replay_wrapper_contract", "{ a: x: .scope s { b: x: { c: x: } } d: } e:", shape_replay, target=[G + "_code_gen", "a816.program.Program.resolve_labels"]))
     return cs
+
+
+def shape_assign_frame(B):
+    res = S.resolver(B)
+    outer_v, v = B.int("outer_value"), B.int("value")
+    root = S.root_symbols(B, res, {"a": outer_v, "src": v})
+    inner = S.scope(B, res, root)
+    B.I.hmut(B.st, B.I.hget(B.st, res).fields["scopes"]).items.append(inner)
+    r = B.I.hmut(B.st, res)
+    r.fields["current_scope"] = inner
+    r.fields["last_used_scope"] = 1
+    return {"node": S.ast_assign(B, "a", S.expr_ident(B, "src")), "resolver": res, "tok": S.tok(B, "IDENTIFIER", "a"), "outer_value": outer_v, "value": v}
 
 
 def shape_balanced(kind):
